@@ -52,6 +52,20 @@ def snapshot(c):
             'j': j, 'log': log}
 
 
+_LETTER = {'cleared': 'o', 'failed': 'x', 'passed': '-', 'retired': 'r'}
+
+
+def views(c):
+    """The derived, read-only views of a competition (properties of the real object): trials (bib, height, letter),
+    remaining / eliminated athletes in jumping order, is_finished, is_running."""
+    try:
+        tr = [[str(b), cm(h) if h is not None else 0, str(x)] for b, h, x in c.trials]
+        return {'ok': True, 'trials': tr, 'rem': [str(j.bib) for j in c.remaining], 'eli': [str(j.bib) for j in c.eliminated],
+                'fin': bool(c.is_finished), 'run': bool(c.is_running)}
+    except Exception as e:
+        return {'ok': False, 'trials': [], 'rem': [], 'eli': [], 'fin': False, 'run': False}
+
+
 def obs(snap):
     """The observables named by C02/C08 (trials are a function of the log)."""
     return {'state': snap['state'], 'heights': snap['heights'], 'bar': snap['bar'],
@@ -91,7 +105,7 @@ def run_behaviour(calls, alphabet=None, extras=True):
     for call in calls:
         out = apply(c, call, RV)
         post = snapshot(c)
-        st = {'c': call, 'out': out, 'post': post}
+        st = {'c': call, 'out': out, 'post': post, 'v': views(c)}
         st['pr'] = probe_all(c, post, alphabet, RV) if alphabet else []
         if extras:
             st['rep'] = replay_log(c)
@@ -118,9 +132,10 @@ def probe_all(c, snap, alphabet, RV):
 
 def replay_log(c):
     try:
-        return {'ok': True, 'snap': snapshot(c.from_actions())}
+        c2 = c.from_actions()
+        return {'ok': True, 'snap': snapshot(c2), 'v': views(c2)}
     except Exception as e:
-        return {'ok': False, 'exc': type(e).__name__, 'snap': EMPTY}
+        return {'ok': False, 'exc': type(e).__name__, 'snap': EMPTY, 'v': views(None)}
 
 
 def round_trip(c, HJ):
